@@ -1,6 +1,7 @@
 package stx
 
 import (
+	"bytes"
 	"context"
 	"fmt"
 	"io"
@@ -261,6 +262,65 @@ func (r *Runner) startPut(id, obj, ver int, chunking, fault string) {
 	}()
 	e := r.wait()
 	r.afterPutStart(op, size, e)
+}
+
+// consumeMode consumes a buffer returned by the store in one of the ways clients do: "s" ToByteSlice, "r" ToReader
+// read to the end, "c" ToChunkReader in small chunks, "w" IntoWriter, "a" ReadAt piecewise; "p" ToReader closed after
+// one byte and "d" Discard abandon the data (kind "abandoned": the outcome of the read is not observed).
+func consumeMode(b buffer.Buffer, mode string, size int) (string, []byte) {
+	var data []byte
+	var err error
+	switch mode {
+	case "r":
+		rd := b.ToReader()
+		data, err = io.ReadAll(rd)
+		if cerr := rd.Close(); err == nil {
+			err = cerr
+		}
+	case "c":
+		cr := b.ToChunkReader(0, 3)
+		for {
+			var c []byte
+			c, err = cr.Read()
+			if err != nil {
+				break
+			}
+			data = append(data, c...)
+		}
+		cr.Close()
+		if err == io.EOF {
+			err = nil
+		}
+	case "w":
+		var w bytes.Buffer
+		err = b.IntoWriter(&w)
+		data = w.Bytes()
+	case "a":
+		// one ReadAt of the whole object (the size is what the digest says); like every other method of Buffer
+		// it consumes the buffer
+		data = make([]byte, size)
+		var n int
+		n, err = b.ReadAt(data, 0)
+		data = data[:n]
+		if err == io.EOF && n == size {
+			err = nil
+		}
+	case "p":
+		rd := b.ToReader()
+		var one [1]byte
+		rd.Read(one[:])
+		rd.Close()
+		return "abandoned", nil
+	case "d":
+		b.Discard()
+		return "abandoned", nil
+	default:
+		return consume(b)
+	}
+	if err != nil {
+		return Code(err), nil
+	}
+	return "data", data
 }
 
 // consume reads a buffer returned by the store completely.
